@@ -129,7 +129,26 @@ def domain(ctx, focus):
         h = [rng.choice(allops) for _ in range(n)]
         q = [["P", i] for i in rng.sample(range(len(TEXTS)), 4)] + [["T", i] for i in rng.sample(range(len(TEXTS)), 4)]
         cases.append({"texts": TEXTS, "history": h + q})
-    rule = ("all %d histories of length <= %d over %d operations (parse / tokenize of %d texts incl. one failing text per exception class, "
+    # stress histories: state that only builds up over many calls
+    deep_fail = ["((((((((x", "(((1 +", "sgn(((x", "2 * (((((y + 1", "(x))", "4 +"]
+    nstress = 0
+    for ft in deep_fail:
+        for n in ((40, 130) if not ctx.quick else (130,)):
+            tx = [ft, "(x)", "sgn(x) + (y)", "((2))", "x"]
+            h = [["P", 0]] * n + [["P", i] for i in range(1, 5)] + [["T", i] for i in range(1, 5)] + [["C", None]] + [["P", i] for i in range(1, 5)]
+            cases.append({"texts": tx, "history": h})
+            nstress += 1
+    # cache-capacity probes: tokenize(s), N other distinct successful parses, then parse(s) / tokenize(s) again
+    caps = [128, 256, 512, 1024] if ctx.quick else [16, 32, 64, 100, 128, 200, 256, 500, 512, 1000, 1024, 2048]
+    for cap in caps:
+        for n in (cap - 1, cap, cap + 1):
+            tx = ["4x + 2y^3"] + ["x + %d" % k for k in range(n)]
+            h = [["T", 0]] + [["P", k + 1] for k in range(n)] + [["P", 0], ["T", 0], ["P", 1], ["P", n]]
+            cases.append({"texts": tx, "history": h, "noquery": True})
+            h2 = [["P", 0]] + [["T", k + 1] for k in range(n)] + [["T", 0], ["P", 0], ["T", 1], ["P", n]]
+            cases.append({"texts": tx, "history": h2, "noquery": True})
+            nstress += 2
+    rule = ("%d stress histories (130 repeated failing parses of deeply parenthesised texts; cache-capacity probes around 128..1024 distinct texts); " % nstress) + ("all %d histories of length <= %d over %d operations (parse / tokenize of %d texts incl. one failing text per exception class, "
             "clear_cache, %s) each followed by parse, tokenize and parse-again of every text; + seeded random histories up to length 14 over %d texts"
             % (exhaustive, L, len(ops), len(texts), "client edits of handed-out lists" if focus != "sticky" else "no edits", len(TEXTS)))
     return cases, rule
